@@ -21,7 +21,7 @@ RULE = ('(a) the whole option table of TCPHiddenServiceEndpoint (ephemeral not g
         'reactor whose listenTCP hands out a recording listening port: ephemeral (no auth, basic auth), filesystem (explicit and implicit '
         'directory), versions 2/3, with and without a key, with and without a requested local_port (the port actually bound is what must be forwarded to), x a failure injected at each step: configuration Deferred fails, yields a non-config, '
         'configuration bootstrap fails, local bind fails, ADD_ONION / SETCONF rejected, every descriptor upload failed, connection lost during the '
-        'wait — and no failure; for plain ephemeral services also with another service\'s descriptor events arriving while the ADD_ONION is unanswered; the connection loss also with an unrelated command outstanding; for filesystem services also with the upload reports (or failures) arriving before the SETCONF is answered, and with another filesystem service of the same Tor already listening in a directory whose path contains / is contained in / lies inside its own. Observed in order: listeners bound (interface, port), the forwarding Tor is asked for, listeners closed, the '
+        'wait — and no failure; for plain ephemeral services also with another service\'s descriptor events arriving while the ADD_ONION is unanswered; the connection loss also with an unrelated command outstanding; for filesystem services also with the upload reports (or failures) arriving before the SETCONF is answered, and with another filesystem service of the same Tor already listening in a directory whose path contains / is contained in / lies inside its own, or an authenticated filesystem service configured in Tor before we attached. Observed in order: listeners bound (interface, port), the forwarding Tor is asked for, listeners closed, the '
         'result (address: onion host and public port; stopListening closes the listener), whether it came before the upload was confirmed. Both '
         'tiers enumerate the product. non-trivial = a listen case; distinct = cases')
 TRUSTED = ["PARTIAL: a recording listening port stands in for sockets; the fake Tor's ADD_ONION reply / HS_DESC events; hostname files written by the "
@@ -185,6 +185,17 @@ def run_listen(c):
         from harness.simtor import DEFAULT_OPTIONS
         st = SimTor(options=list(DEFAULT_OPTIONS) + [('HiddenServiceSingleHopMode', 'Boolean'), ('HiddenServiceNonAnonymousMode', 'Boolean')],
                     store={'HiddenServiceSingleHopMode': ['0'], 'HiddenServiceNonAnonymousMode': ['0']})
+    elif c.get('auth_neighbour'):
+        # the Tor we talk to already has an authenticated filesystem service (its clients are what TorConfig lists for it)
+        from harness.simtor import DEFAULT_OPTIONS
+        st = SimTor(options=list(DEFAULT_OPTIONS) + [('HiddenServiceOptions', 'Virtual')])
+        ndir = tempfile.mkdtemp(prefix='c17auth')
+        with open(os.path.join(ndir, 'hostname'), 'w') as f:
+            f.write('authsvcabcdefghij.onion tokenalice # client: alice\nauthsvcabcdefghik.onion tokenbob # client: bob\n')
+        neighbour = ['HiddenServiceDir=' + ndir, 'HiddenServicePort=80 127.0.0.1:8080', 'HiddenServiceVersion=2',
+                     'HiddenServiceAuthorizeClient=basic alice,bob']
+        plain_getconf = st.getconf_lines
+        st.getconf_lines = lambda name: list(neighbour) if name.lower() == 'hiddenserviceoptions' else plain_getconf(name)
     else:
         st = SimTor()
     if fail == 'bootstrap':
@@ -198,7 +209,9 @@ def run_listen(c):
     made_dirs = []
     # what Tor is asked to forward, in the order of events
     orig_on_command = st._on_command
-    said_before = []
+    said_before = ['create:80:127.0.0.1:8080'] if c.get('auth_neighbour') else []
+    if c.get('auth_neighbour'):
+        made_dirs.append(ndir)
 
     def on_command(line):
         w = line.split(' ', 1)[0]
@@ -570,6 +583,9 @@ def gen_cases(rng, tier):
                    'events_first': True, 'app_listens': True}
             yield {'api': 'listen', 'kind': kind, 'version': version, 'key': key, 'fail': fail, 'public': public, 'local_port': local_port,
                    'app_listens': True}
+        if kind.startswith('fs') and fail in ('none', 'command') and local_port is None:
+            yield {'api': 'listen', 'kind': kind, 'version': version, 'key': key, 'fail': fail, 'public': public, 'local_port': local_port,
+                   'auth_neighbour': True}
         if kind == 'fs-explicit' and fail == 'none' and local_port is None:
             for sib in ('longer', 'shorter', 'inside'):
                 yield {'api': 'listen', 'kind': kind, 'version': version, 'key': key, 'fail': fail, 'public': public, 'local_port': local_port,
